@@ -7,7 +7,7 @@
    optimum over CONTIGUOUS partitions of the list as given does not need it). *)
 From Coq Require Import List Arith Bool ZArith QArith Lia.
 Import ListNotations.
-Require Import C12.Jenks C12.JenksProofs C12.JenksImp C12.JenksImpProofs.
+Require Import C12.Jenks C12.JenksProofs C12.JenksImp C12.JenksImpProofs C12.JenksDistinct.
 Local Open Scope nat_scope.
 
 (* Refinement: after the loops, var_combinations[l][j] (rows 2..n, columns 1..k) is finite and equals
@@ -52,6 +52,18 @@ Theorem C12_jenks_imp_lower_class_limits : forall data k l j,
 Proof. exact jenks_imp_lower_class_limits. Qed.
 Print Assumptions C12_jenks_imp_lower_class_limits.
 
+(* the code's `>=` lets a LATER candidate win ties, so the recorded start is the SMALLEST optimal one:
+   every smaller start is strictly worse *)
+Theorem C12_jenks_imp_tie_rule : forall data k l j,
+  1 <= k -> 2 <= l <= length data -> 2 <= j <= k ->
+  let M := jenks_matrices data k in
+  forall i, fst M l j = Z.of_nat (S i) ->
+  forall i', 1 <= i' < i ->
+    exists p p', snd M i (j - 1) = Fin p /\ snd M i' (j - 1) = Fin p' /\
+                 (cinc data i l + p < cinc data i' l + p')%Q.
+Proof. exact jenks_imp_tie_rule. Qed.
+Print Assumptions C12_jenks_imp_tie_rule.
+
 (* ... where `variance` — the code's running  sum_squares - sum*sum/w  — is the sum of squared
    deviations of the class *)
 Theorem C12_jenks_imp_variance_is_ssd : forall data i l,
@@ -85,6 +97,36 @@ Theorem C12_jenks_imp_breaks : forall data k,
 Proof. exact jenks_imp_breaks. Qed.
 Print Assumptions C12_jenks_imp_breaks.
 
+(* The precondition holds for what _run_natural_break passes: ASCENDING data (data.sort() in _run_jenks) with at
+   least k DISTINCT values (`uvk < k` is tested before the call).  distinct_upto counts 1 + the positions p with
+   data[p-1] < data[p]. *)
+Theorem C12_jenks_imp_no_underflow : forall data k,
+  1 <= k -> 1 <= length data -> sortedQ data -> k <= distinct_upto data (length data) ->
+  jenks_bt_ok data k = true.
+Proof. exact jenks_bt_ok_of_distinct. Qed.
+Print Assumptions C12_jenks_imp_no_underflow.
+
+(* Headline, with preconditions on the INPUT only: on ascending data with at least k distinct values the
+   imperative algorithm (matrices + back-tracking) cuts the data into exactly k non-empty contiguous classes of
+   minimum within-class sum of squared deviations over ALL such partitions, and returns their maxima as breaks. *)
+Theorem C12_jenks_imp_optimal_on_sorted_distinct : forall data k,
+  1 <= k -> sortedQ data -> k <= distinct_upto data (length data) -> 1 <= length data ->
+  let n := length data in
+  let P := jenks_cuts data k in
+  pvalid n P /\ length P = k - 1 /\
+  (pcost Qplus (ssd data) n P == jenks_min data k)%Q /\
+  (forall P', pvalid n P' -> length P' = k - 1 ->
+              (pcost Qplus (ssd data) n P <= pcost Qplus (ssd data) n P')%Q) /\
+  run_jenks data k =
+  nth 0 data 0%Q :: map (fun i => nth (i - 1) data 0%Q) (rev P) ++ [nth (n - 1) data 0%Q].
+Proof.
+  intros data k Hk Hs HD Hn n P.
+  pose proof (jenks_bt_ok_of_distinct data k Hk Hn Hs HD) as Hok.
+  destruct (jenks_imp_backtrack_optimal data k Hk Hn Hok) as (H1 & H2 & H3 & H4).
+  repeat split; try assumption. exact (jenks_imp_breaks data k Hk Hn Hok).
+Qed.
+Print Assumptions C12_jenks_imp_optimal_on_sorted_distinct.
+
 (* ---------- non-vacuity (vm_compute on concrete data with ties) ---------- *)
 Definition ex_data : list Q := map inject_Z [0; 0; 14; 14; 14; 16; 29]%Z.
 
@@ -116,3 +158,12 @@ Example C12_jenks_imp_underflow_example :
   let d := map inject_Z [5; 5; 5]%Z in
   jenks_bt_ok d 3 = false /\ map Qred (run_jenks d 3) = map inject_Z [5; 5; 5; 5]%Z.
 Proof. vm_compute. repeat split. Qed.
+
+Example C12_jenks_imp_sorted_distinct_example :
+  (* the hypotheses of C12_jenks_imp_optimal_on_sorted_distinct hold for the tied example: ascending, 4 distinct values *)
+  sortedQ ex_data /\ distinct_upto ex_data (length ex_data) = 4 /\ distinct_upto ex_data 5 = 2.
+Proof.
+  split; [|vm_compute; split; reflexivity].
+  intros p Hp. change (length ex_data) with 7 in Hp.
+  do 7 (destruct p as [|p]; [try lia; vm_compute; intros H; discriminate H|]). lia.
+Qed.
